@@ -414,7 +414,7 @@ pub fn strat(t: Tier) -> BoxedStrategy<Case> {
                     (B(t), k)
                 })
                 .collect();
-            Case { base: MyersCase { pattern: B(p), text: B(t), k, width, ambig, wildcards }, more, script }
+            Case { base: MyersCase { pattern: B(p), text: B(t), k, width, ambig, wildcards, k_is_best: false }, more, script }
         })
         .boxed()
 }
@@ -452,7 +452,7 @@ pub fn strat_large(_t: Tier) -> BoxedStrategy<Case> {
                     (B(t), k)
                 })
                 .collect();
-            Case { base: MyersCase { pattern: B(p), text: B(t), k, width, ambig, wildcards }, more, script }
+            Case { base: MyersCase { pattern: B(p), text: B(t), k, width, ambig, wildcards, k_is_best: false }, more, script }
         })
         .boxed()
 }
